@@ -752,6 +752,10 @@ pub enum C13Case {
     PairEmpty(KType, KType),
     SigByte { kt: KType, file: u8, off: u64, xor: u8 },
     Swap { kt: KType, other: KType, file: u8 },
+    /// file(s) (3 = all three) cut to `len` bytes, shorter than the header: with `flip` the first
+    /// signature byte is foreign as well and the open is attempted as the creating type;
+    /// without it the (still correctly signed) stub is opened as another key type
+    Short { kt: KType, as_kt: KType, file: u8, len: u64, flip: bool },
 }
 
 pub fn c13_cases() -> Vec<C13Case> {
@@ -811,6 +815,22 @@ pub fn c13_cases() -> Vec<C13Case> {
             }
         }
     }
+    // files shorter than their header (128 bytes .htx, 192 bytes .key/.val)
+    for a in ALL_KTYPES {
+        for file in 0..4u8 {
+            let hdr = if file == 0 { 128u64 } else { 192 };
+            for len in [1u64, 7, 8, 9, 15, 16, 17, 100, hdr - 1] {
+                v.push(C13Case::Short { kt: a, as_kt: a, file, len, flip: true });
+            }
+            for b in ALL_KTYPES {
+                if a != b {
+                    for len in [16u64, 17, 100, hdr - 1] {
+                        v.push(C13Case::Short { kt: a, as_kt: b, file, len, flip: false });
+                    }
+                }
+            }
+        }
+    }
     v
 }
 
@@ -858,6 +878,20 @@ pub fn c13(seed: u64, _tier: Tier, index: u64) -> Vec<Episode> {
             st.push(Step::ForeignOpen { m: 0, as_kt: kt, expect_refused: true, swapped_from: None });
             st.push(Step::Corrupt { m: 0, kind: file, off, xor });
             st.push(Step::ForeignOpen { m: 0, as_kt: kt, expect_refused: false, swapped_from: None });
+        }
+        C13Case::Short { kt, as_kt, file, len, flip } => {
+            name = "short-file";
+            maps = vec![MapSpec { name: "t".into(), kt, params, dir: 0 }];
+            populate(&mut g, kt, 0, &mut st);
+            if flip {
+                for f in 0..3u8 {
+                    if f == file || file >= 3 {
+                        st.push(Step::Corrupt { m: 0, kind: f, off: 0, xor: 0x01 });
+                    }
+                }
+            }
+            st.push(Step::Truncate { m: 0, kind: file, len });
+            st.push(Step::ForeignOpen { m: 0, as_kt, expect_refused: true, swapped_from: None });
         }
         C13Case::Swap { kt, other, file } => {
             name = "swapped-file";
